@@ -485,6 +485,7 @@ class BaseEMSurvey(ObjectBase, ABC):  # pylint: disable=too-many-public-methods
                 f"{type(receivers)} provided."
             )
         self._receivers = receivers
+        setattr(receivers, "_" + TYPE_MAP[self.type], self)
         entries = {"Receivers": receivers.uid}
         tx_id = receivers.metadata["EM Dataset"].get("Tx ID property")
         if tx_id is not None:
@@ -530,6 +531,7 @@ class BaseEMSurvey(ObjectBase, ABC):  # pylint: disable=too-many-public-methods
                 f"{type(transmitters)} provided."
             )
         self._transmitters = transmitters
+        transmitters._receivers = self  # pylint: disable=protected-access
         self.edit_em_metadata({"Transmitters": transmitters.uid})
 
     @property
